@@ -465,6 +465,24 @@ def _run_pipeline(desc):
                 got2 = t2.pk2dmerge(ds.omega, ds.dty)
             have2 = [(int(got2["Number_of_pixels"][k]), int(round(got2["sum_intensity"][k])), int(got2["npk2d"][k]), float(got2["s_raw"][k]), float(got2["f_raw"][k]),
                       float(got2["omega"][k]), float(got2["dty"][k])) for k in range(len(got2["spot3d_id"]))]
+            # a table whose pair storage was counted for two more pairs than are stored (nothing in the library clears a slot), allocated
+            # right after an array of the same size was dropped - the allocator hands such blocks out again: the unused slots must not
+            # connect anything
+            npair = pk.rc.shape[1]
+            npk2 = pk.pk_props.shape[1]
+            junk = np.empty((3, npair + 2), np.int64)
+            junk[0] = 0; junk[1] = npk2 - 1; junk[2] = 1
+            del junk
+            with contextlib.redirect_stdout(io.StringIO()):
+                t3 = P.pks_table(npk=np.array([(npk2, npair + 2, 0)]), use_shm=False)
+                t3.pk_props[:, :] = pk.pk_props
+                t3.rc[:, :npair] = pk.rc
+                t3.find_uniq()
+                got3 = t3.pk2dmerge(ds.omega, ds.dty)
+            have3 = [(int(got3["Number_of_pixels"][k]), int(round(got3["sum_intensity"][k])), int(got3["npk2d"][k]), float(got3["s_raw"][k]), float(got3["f_raw"][k]),
+                      float(got3["omega"][k]), float(got3["dty"][k])) for k in range(len(got3["spot3d_id"]))]
+            if len(have3) != len(want) or any(np.abs(np.array(a) - np.array(b)).max() > 1e-9 * max(1.0, abs(b[1])) for a, b in zip(sorted(have3), sorted(want))):
+                sh.violation("pks_table[pair storage with unused slots]+pk2dmerge:merged-peaks-differ-from-components", case, {"got": sorted(have3), "expected": sorted(want)})
             if len(have) != len(want) or any(np.abs(np.array(a) - np.array(b)).max() > 1e-9 * max(1.0, abs(b[1])) for a, b in zip(sorted(have), sorted(want))):
                 sh.violation("pks_table_from_scan+pk2dmerge:merged-peaks-differ-from-components", case, {"got": sorted(have), "expected": sorted(want)})
             elif len(have2) != len(want) or any(np.abs(np.array(a) - np.array(b)).max() > 1e-9 * max(1.0, abs(b[1])) for a, b in zip(sorted(have2), sorted(want))):
